@@ -2427,6 +2427,9 @@ func cloneKeyForLowerClass(key js_ast.Expr) js_ast.Expr {
 	case *js_ast.ENumber:
 		clone := *k
 		key.Data = &clone
+	case *js_ast.EBigInt:
+		clone := *k
+		key.Data = &clone
 	case *js_ast.EString:
 		clone := *k
 		key.Data = &clone
